@@ -19,14 +19,14 @@ tvars == <<dvars, tid, l, verdict, pred, seen>>
 Ev == Traces[tid].events
 DirOf(i) == [sb |-> i.sb, handler |-> i.handler, ign |-> i.ign, sniff |-> i.sniff, kids |-> Range(i.kids)]
 
-TInit == /\ tid \in 1..NTraces /\ l = 1 /\ verdict = "ok" /\ pred = <<>> /\ seen = <<>>
+TInit == /\ tid \in 1..NTraces /\ l = 1 /\ verdict = "ok" /\ pred = NoExpect /\ seen = <<>>
          /\ DirInit(DirOf(Traces[tid].init.d))
 
 Known == {"enum", "touches", "response"}
 
 Enum(e) ==
     IF pc = "start" /\ IsEnumOf(d, e.order)
-    THEN ListDir(e.order) /\ pred' = PredictedTouches(d, e.order) /\ verdict' = "ok" /\ UNCHANGED seen
+    THEN ListDir(e.order) /\ pred' = Expect(d, e.order) /\ verdict' = "ok" /\ UNCHANGED seen
     ELSE UNCHANGED <<dvars, pred, seen>> /\ verdict' = "unmatched"
 
 Touches(e) == UNCHANGED <<dvars, pred>> /\ seen' = e.names /\ verdict' = "ok"
@@ -37,9 +37,9 @@ Response(e) ==
         v   == RobustClause(d, obs)
     IN /\ p' = [p EXCEPT !.out = mdl] /\ pc' = "done" /\ UNCHANGED <<d, raw, j, pred, seen>>
        /\ verdict' = IF pc = "done" THEN "unmatched" ELSE v
-       /\ (IF v # "ok" \/ (obs.kind = mdl.kind /\ obs.listing = mdl.listing) THEN TRUE
+       /\ (IF v # "ok" \/ obs \in pred.outs THEN TRUE
            ELSE RecordDrift(tid, l, "listing differs from the pipeline model"))
-       /\ (IF v # "ok" \/ seen = pred THEN TRUE
+       /\ (IF v # "ok" \/ seen \in pred.touches THEN TRUE
            ELSE RecordDrift(tid, l, "children inspected in another order than the model predicts"))
 
 Consume ==
